@@ -405,6 +405,8 @@ func (mc *ModbusClient) ReadDiscreteInput(addr uint16) (value bool, err error) {
 
 // Reads multiple 16-bit registers (function code 03 or 04).
 func (mc *ModbusClient) ReadRegisters(addr uint16, quantity uint16, regType RegType) (values []uint16, err error) {
+	endianness, _ := mc.encoding()
+
 	var mbPayload	[]byte
 
 	// read quantity uint16 registers, as bytes
@@ -414,7 +416,7 @@ func (mc *ModbusClient) ReadRegisters(addr uint16, quantity uint16, regType RegT
 	}
 
 	// decode payload bytes as uint16s
-	values	= bytesToUint16s(mc.endianness, mbPayload)
+	values	= bytesToUint16s(endianness, mbPayload)
 
 	return
 }
@@ -434,6 +436,8 @@ func (mc *ModbusClient) ReadRegister(addr uint16, regType RegType) (value uint16
 
 // Reads multiple 32-bit registers.
 func (mc *ModbusClient) ReadUint32s(addr uint16, quantity uint16, regType RegType) (values []uint32, err error) {
+	endianness, wordOrder := mc.encoding()
+
 	var mbPayload	[]byte
 
 	// read 2 * quantity uint16 registers, as bytes
@@ -443,7 +447,7 @@ func (mc *ModbusClient) ReadUint32s(addr uint16, quantity uint16, regType RegTyp
 	}
 
 	// decode payload bytes as uint32s
-	values	= bytesToUint32s(mc.endianness, mc.wordOrder, mbPayload)
+	values	= bytesToUint32s(endianness, wordOrder, mbPayload)
 
 	return
 }
@@ -462,6 +466,8 @@ func (mc *ModbusClient) ReadUint32(addr uint16, regType RegType) (value uint32, 
 
 // Reads multiple 32-bit float registers.
 func (mc *ModbusClient) ReadFloat32s(addr uint16, quantity uint16, regType RegType) (values []float32, err error) {
+	endianness, wordOrder := mc.encoding()
+
 	var mbPayload	[]byte
 
 	// read 2 * quantity uint16 registers, as bytes
@@ -471,7 +477,7 @@ func (mc *ModbusClient) ReadFloat32s(addr uint16, quantity uint16, regType RegTy
 	}
 
 	// decode payload bytes as float32s
-	values	= bytesToFloat32s(mc.endianness, mc.wordOrder, mbPayload)
+	values	= bytesToFloat32s(endianness, wordOrder, mbPayload)
 
 	return
 }
@@ -490,6 +496,8 @@ func (mc *ModbusClient) ReadFloat32(addr uint16, regType RegType) (value float32
 
 // Reads multiple 64-bit registers.
 func (mc *ModbusClient) ReadUint64s(addr uint16, quantity uint16, regType RegType) (values []uint64, err error) {
+	endianness, wordOrder := mc.encoding()
+
 	var mbPayload	[]byte
 
 	// read 4 * quantity uint16 registers, as bytes
@@ -499,7 +507,7 @@ func (mc *ModbusClient) ReadUint64s(addr uint16, quantity uint16, regType RegTyp
 	}
 
 	// decode payload bytes as uint64s
-	values	= bytesToUint64s(mc.endianness, mc.wordOrder, mbPayload)
+	values	= bytesToUint64s(endianness, wordOrder, mbPayload)
 
 	return
 }
@@ -518,6 +526,8 @@ func (mc *ModbusClient) ReadUint64(addr uint16, regType RegType) (value uint64, 
 
 // Reads multiple 64-bit float registers.
 func (mc *ModbusClient) ReadFloat64s(addr uint16, quantity uint16, regType RegType) (values []float64, err error) {
+	endianness, wordOrder := mc.encoding()
+
 	var mbPayload	[]byte
 
 	// read 4 * quantity uint16 registers, as bytes
@@ -527,7 +537,7 @@ func (mc *ModbusClient) ReadFloat64s(addr uint16, quantity uint16, regType RegTy
 	}
 
 	// decode payload bytes as float64s
-	values	= bytesToFloat64s(mc.endianness, mc.wordOrder, mbPayload)
+	values	= bytesToFloat64s(endianness, wordOrder, mbPayload)
 
 	return
 }
@@ -759,11 +769,13 @@ func (mc *ModbusClient) WriteRegister(addr uint16, value uint16) (err error) {
 
 // Writes multiple 16-bit registers (function code 16).
 func (mc *ModbusClient) WriteRegisters(addr uint16, values []uint16) (err error) {
+	endianness, _ := mc.encoding()
+
 	var payload	[]byte
 
 	// turn registers to bytes
 	for _, value := range values {
-		payload	= append(payload, uint16ToBytes(mc.endianness, value)...)
+		payload	= append(payload, uint16ToBytes(endianness, value)...)
 	}
 
 	err = mc.writeRegisters(addr, payload)
@@ -773,11 +785,13 @@ func (mc *ModbusClient) WriteRegisters(addr uint16, values []uint16) (err error)
 
 // Writes multiple 32-bit registers.
 func (mc *ModbusClient) WriteUint32s(addr uint16, values []uint32) (err error) {
+	endianness, wordOrder := mc.encoding()
+
 	var payload	[]byte
 
 	// turn registers to bytes
 	for _, value := range values {
-		payload	= append(payload, uint32ToBytes(mc.endianness, mc.wordOrder, value)...)
+		payload	= append(payload, uint32ToBytes(endianness, wordOrder, value)...)
 	}
 
 	err = mc.writeRegisters(addr, payload)
@@ -787,18 +801,22 @@ func (mc *ModbusClient) WriteUint32s(addr uint16, values []uint32) (err error) {
 
 // Writes a single 32-bit register.
 func (mc *ModbusClient) WriteUint32(addr uint16, value uint32) (err error) {
-	err = mc.writeRegisters(addr, uint32ToBytes(mc.endianness, mc.wordOrder, value))
+	endianness, wordOrder := mc.encoding()
+
+	err = mc.writeRegisters(addr, uint32ToBytes(endianness, wordOrder, value))
 
 	return
 }
 
 // Writes multiple 32-bit float registers.
 func (mc *ModbusClient) WriteFloat32s(addr uint16, values []float32) (err error) {
+	endianness, wordOrder := mc.encoding()
+
 	var payload	[]byte
 
 	// turn registers to bytes
 	for _, value := range values {
-		payload	= append(payload, float32ToBytes(mc.endianness, mc.wordOrder, value)...)
+		payload	= append(payload, float32ToBytes(endianness, wordOrder, value)...)
 	}
 
 	err = mc.writeRegisters(addr, payload)
@@ -808,18 +826,22 @@ func (mc *ModbusClient) WriteFloat32s(addr uint16, values []float32) (err error)
 
 // Writes a single 32-bit float register.
 func (mc *ModbusClient) WriteFloat32(addr uint16, value float32) (err error) {
-	err = mc.writeRegisters(addr, float32ToBytes(mc.endianness, mc.wordOrder, value))
+	endianness, wordOrder := mc.encoding()
+
+	err = mc.writeRegisters(addr, float32ToBytes(endianness, wordOrder, value))
 
 	return
 }
 
 // Writes multiple 64-bit registers.
 func (mc *ModbusClient) WriteUint64s(addr uint16, values []uint64) (err error) {
+	endianness, wordOrder := mc.encoding()
+
 	var payload	[]byte
 
 	// turn registers to bytes
 	for _, value := range values {
-		payload	= append(payload, uint64ToBytes(mc.endianness, mc.wordOrder, value)...)
+		payload	= append(payload, uint64ToBytes(endianness, wordOrder, value)...)
 	}
 
 	err = mc.writeRegisters(addr, payload)
@@ -829,18 +851,22 @@ func (mc *ModbusClient) WriteUint64s(addr uint16, values []uint64) (err error) {
 
 // Writes a single 64-bit register.
 func (mc *ModbusClient) WriteUint64(addr uint16, value uint64) (err error) {
-	err = mc.writeRegisters(addr, uint64ToBytes(mc.endianness, mc.wordOrder, value))
+	endianness, wordOrder := mc.encoding()
+
+	err = mc.writeRegisters(addr, uint64ToBytes(endianness, wordOrder, value))
 
 	return
 }
 
 // Writes multiple 64-bit float registers.
 func (mc *ModbusClient) WriteFloat64s(addr uint16, values []float64) (err error) {
+	endianness, wordOrder := mc.encoding()
+
 	var payload	[]byte
 
 	// turn registers to bytes
 	for _, value := range values {
-		payload	= append(payload, float64ToBytes(mc.endianness, mc.wordOrder, value)...)
+		payload	= append(payload, float64ToBytes(endianness, wordOrder, value)...)
 	}
 
 	err = mc.writeRegisters(addr, payload)
@@ -850,7 +876,9 @@ func (mc *ModbusClient) WriteFloat64s(addr uint16, values []float64) (err error)
 
 // Writes a single 64-bit float register.
 func (mc *ModbusClient) WriteFloat64(addr uint16, value float64) (err error) {
-	err = mc.writeRegisters(addr, float64ToBytes(mc.endianness, mc.wordOrder, value))
+	endianness, wordOrder := mc.encoding()
+
+	err = mc.writeRegisters(addr, float64ToBytes(endianness, wordOrder, value))
 
 	return
 }
@@ -875,8 +903,20 @@ func (mc *ModbusClient) WriteRawBytes(addr uint16, values []byte) (err error) {
 }
 
 /*** unexported methods ***/
+// Returns the encoding settings, read under the client lock (SetEncoding may
+// be changing them from another goroutine).
+func (mc *ModbusClient) encoding() (endianness Endianness, wordOrder WordOrder) {
+	mc.lock.Lock()
+	endianness, wordOrder = mc.endianness, mc.wordOrder
+	mc.lock.Unlock()
+
+	return
+}
+
 // Reads one or multiple 16-bit registers (function code 03 or 04) as bytes.
 func (mc *ModbusClient) readBytes(addr uint16, quantity uint16, regType RegType, observeEndianness bool) (values []byte, err error) {
+	endianness, _ := mc.encoding()
+
 	var regCount uint16
 
 	// read enough registers to get the requested number of bytes
@@ -890,7 +930,7 @@ func (mc *ModbusClient) readBytes(addr uint16, quantity uint16, regType RegType,
 
 	// swap bytes on register boundaries if requested by the caller
 	// and endianness is set to little endian
-	if observeEndianness && mc.endianness == LITTLE_ENDIAN {
+	if observeEndianness && endianness == LITTLE_ENDIAN {
 		for i := 0; i < len(values); i += 2 {
 			values[i], values[i+1] = values[i+1], values[i]
 		}
@@ -906,6 +946,8 @@ func (mc *ModbusClient) readBytes(addr uint16, quantity uint16, regType RegType,
 
 // Writes the given slice of bytes to 16-bit registers starting at addr.
 func (mc *ModbusClient) writeBytes(addr uint16, values []byte, observeEndianness bool) (err error) {
+	endianness, _ := mc.encoding()
+
 	// work on a private copy: padding and byte swapping must not touch
 	// the caller's backing array
 	values = append(make([]byte, 0, len(values) + 1), values...)
@@ -917,7 +959,7 @@ func (mc *ModbusClient) writeBytes(addr uint16, values []byte, observeEndianness
 
 	// swap bytes on register boundaries if requested by the caller
 	// and endianness is set to little endian
-	if observeEndianness && mc.endianness == LITTLE_ENDIAN {
+	if observeEndianness && endianness == LITTLE_ENDIAN {
 		for i := 0; i < len(values); i += 2 {
 			values[i], values[i+1] = values[i+1], values[i]
 		}
